@@ -151,6 +151,11 @@ pub struct Row {
 
 /// `ts_type`: false = Int64 timestamp column, true = Timestamp(ns, UTC)
 pub fn rows_to_batch(rows: &[Row], ts_type: bool) -> RecordBatch {
+    rows_to_batch_label(rows, ts_type, "host")
+}
+
+/// the same batch with the label column under another name (a client with another label set)
+pub fn rows_to_batch_label(rows: &[Row], ts_type: bool, label: &str) -> RecordBatch {
     let ts_field = if ts_type {
         Field::new("timestamp", DataType::Timestamp(TimeUnit::Nanosecond, Some("UTC".into())), false)
     } else {
@@ -159,7 +164,7 @@ pub fn rows_to_batch(rows: &[Row], ts_type: bool) -> RecordBatch {
     let schema = Arc::new(Schema::new(vec![
         ts_field,
         Field::new("metric_name", DataType::Utf8, false),
-        Field::new("host", DataType::Utf8, true),
+        Field::new(label, DataType::Utf8, true),
         Field::new("id", DataType::Int64, false),
         Field::new("value_f64", DataType::Float64, true),
     ]));
@@ -328,3 +333,32 @@ pub async fn rows_found_by_time(
     }
     Ok(lookups)
 }
+
+/// every row of a Parquet object as "col=value" pairs of its non-null columns (timestamps as integer nanoseconds)
+pub fn whole_rows(data: Bytes) -> Result<Vec<String>, String> {
+    use arrow_array::cast::AsArray;
+    let reader = parquet::arrow::arrow_reader::ParquetRecordBatchReaderBuilder::try_new(data).map_err(|e| e.to_string())?.build().map_err(|e| e.to_string())?;
+    let mut out = Vec::new();
+    for b in reader {
+        let b = b.map_err(|e| e.to_string())?;
+        let schema = b.schema();
+        for r in 0..b.num_rows() {
+            let mut kv: Vec<String> = Vec::new();
+            for (c, f) in schema.fields().iter().enumerate() {
+                let a = b.column(c);
+                if a.is_null(r) {
+                    continue;
+                }
+                let v = match f.data_type() {
+                    arrow_schema::DataType::Timestamp(arrow_schema::TimeUnit::Nanosecond, _) => a.as_primitive::<arrow_array::types::TimestampNanosecondType>().value(r).to_string(),
+                    _ => arrow::util::display::array_value_to_string(a, r).map_err(|e| e.to_string())?,
+                };
+                kv.push(format!("{}={}", f.name(), v));
+            }
+            kv.sort();
+            out.push(kv.join(","));
+        }
+    }
+    Ok(out)
+}
+
